@@ -263,6 +263,53 @@ galois::substrate::HWTopoInfo makeHWTopo() {
   };
 }
 
+#ifdef GALOIS_VERIF
+// verification hook (off unless GALOIS_VERIF is defined): when the environment
+// variable GALOIS_VERIF_TOPO is set ("2x2", "3+1", "1+1+1+1": threads per
+// socket) present a synthetic socket topology instead of the probed one
+bool makeVerifHWTopo(galois::substrate::HWTopoInfo& out) {
+  const char* spec = getenv("GALOIS_VERIF_TOPO");
+  if (!spec || !*spec)
+    return false;
+  std::vector<unsigned> perSocket;
+  std::string str(spec);
+  auto xpos = str.find('x');
+  if (xpos != std::string::npos) {
+    unsigned a = std::stoul(str.substr(0, xpos));
+    unsigned b = std::stoul(str.substr(xpos + 1));
+    perSocket.assign(a, b);
+  } else {
+    size_t pos = 0;
+    while (pos <= str.size()) {
+      size_t next = str.find('+', pos);
+      if (next == std::string::npos)
+        next = str.size();
+      perSocket.push_back(std::stoul(str.substr(pos, next - pos)));
+      pos = next + 1;
+    }
+  }
+  auto allowed = parseCPUSet();
+  std::vector<galois::substrate::ThreadTopoInfo> tti;
+  unsigned tid = 0;
+  for (unsigned s = 0; s < perSocket.size(); ++s) {
+    unsigned leader = tid;
+    for (unsigned k = 0; k < perSocket[s]; ++k, ++tid) {
+      unsigned os = allowed.empty() ? 0 : allowed[tid % allowed.size()];
+      tti.push_back(
+          galois::substrate::ThreadTopoInfo{tid, leader, s, s, s, os, 0});
+    }
+  }
+  if (tti.empty())
+    return false;
+  out.machineTopoInfo.maxThreads   = tti.size();
+  out.machineTopoInfo.maxCores     = tti.size();
+  out.machineTopoInfo.maxSockets   = perSocket.size();
+  out.machineTopoInfo.maxNumaNodes = perSocket.size();
+  out.threadTopoInfo               = tti;
+  return true;
+}
+#endif
+
 } // namespace
 
 galois::substrate::HWTopoInfo galois::substrate::getHWTopo() {
@@ -270,6 +317,13 @@ galois::substrate::HWTopoInfo galois::substrate::getHWTopo() {
   static std::unique_ptr<HWTopoInfo> data;
 
   std::lock_guard<SimpleLock> guard(lock);
+#ifdef GALOIS_VERIF
+  if (!data) {
+    HWTopoInfo synthetic;
+    if (makeVerifHWTopo(synthetic))
+      data = std::make_unique<HWTopoInfo>(synthetic);
+  }
+#endif
   if (!data) {
     data = std::make_unique<HWTopoInfo>(makeHWTopo());
   }
